@@ -231,18 +231,37 @@ def newline_of(spec, glob):
     return out
 
 
+GPEER_MARKS = ('@@gpeer.field', '@@gpeer.text')
+
+
 class Host:
     def __init__(self, world=None):
         world = world or {}
         self.emmet = sys.modules['emmet']
         self.Config = sys.modules['emmet.config'].Config
         self.caches = {cid: {} for cid in (world.get('caches') or [])}
-        self.globals = {gid: jcopy(layer) for gid, layer in (world.get('globals') or {}).items()}
+        # the host's own callback object for options it sets in its GLOBAL config (a JSON world writes
+        # them as the marker strings '@@gpeer.field' / '@@gpeer.text')
+        self.gpeer = Peer({'seed': 77, 'style': 'upper'})
+        self.globals = {gid: self.live_layer(jcopy(layer)) for gid, layer in (world.get('globals') or {}).items()}
         self.cfgs = {}
         for cid, spec in (world.get('configs') or {}).items():
             self.add_config(cid, jcopy(spec))
 
     # -- construction ---------------------------------------------------------
+    def live_layer(self, layer):
+        "Replaces the callback markers of a global config by the bound methods of the host's callback object"
+        if isinstance(layer, dict):
+            for sec in layer.values():
+                opts = sec.get('options') if isinstance(sec, dict) else None
+                if isinstance(opts, dict):
+                    for k, v in list(opts.items()):
+                        if v == '@@gpeer.field':
+                            opts[k] = self.gpeer.field
+                        elif v == '@@gpeer.text':
+                            opts[k] = self.gpeer.text
+        return layer
+
     def build_user(self, spec, cache_obj):
         user = {}
         for k in ('type', 'syntax', 'text', 'context', 'maxRepeat'):
@@ -289,7 +308,7 @@ class Host:
         elif kind == 'set_global':
             g = self.globals[op['global']]
             g.clear()
-            g.update(jcopy(op['layer']))
+            g.update(self.live_layer(jcopy(op['layer'])))
         elif kind == 'edit_cfg':
             h = self.cfgs[op['cfg']]
             path = op['path']
@@ -381,6 +400,7 @@ class Host:
         if fault and fault['kind'] == 'F3':
             fail_at = fault.get('k')
             fail_exc = fault.get('exc')
+        self.gpeer.begin()
         if h.peer is not None:
             h.peer.begin(fail_at, fail_exc)
             h.peer.protect = tuple(newline_of(h.spec, glob))
